@@ -545,6 +545,43 @@ func raceScenarios() []raceScenario {
 		})
 		vsched.Quiesce()
 	}, true})
+	// (xiv) the broker does not close an older connection with the same client identifier: two
+	// live connections share one persistent session (its acknowledgement queues included) and
+	// both publish at QoS 2 at the same time
+	out = append(out, raceScenario{"two live connections of one persistent session, QoS 2 publishes on both", func() {
+		t := newTD()
+		w := t.connect("W", 0, 65535, false)
+		t.subscribe("W", "q/#", 0)
+		var xs []*RawClient
+		for i := 0; i < 2; i++ {
+			x, err := t.w.Dial(fmt.Sprintf("X%d", i+1))
+			if err != nil {
+				return
+			}
+			x.Send(ConnectPacket(ConnectOpts{ClientID: "x", Clean: false, KeepAlive: 600}))
+			t.w.Settle()
+			x.Take()
+			xs = append(xs, x)
+		}
+		if vsched.Failed() || w == nil {
+			return
+		}
+		vsched.Mark()
+		// the first connection's exchanges are released newest first, so that its second PUBREL
+		// hands on a batch of two messages
+		q2 := func(id uint16, pl string) []byte {
+			return refcodec.Encode(&refcodec.Packet{Type: refcodec.PUBLISH, Topic: []byte("q/a"), QoS: 2, ID: id, Payload: []byte(pl)})
+		}
+		rel := func(id uint16) []byte { return refcodec.Encode(&refcodec.Packet{Type: refcodec.PUBREL, ID: id}) }
+		var w1 []byte
+		w1 = append(w1, q2(10, "m10")...)
+		w1 = append(w1, q2(11, "m11")...)
+		w1 = append(w1, rel(11)...)
+		w1 = append(w1, rel(10)...)
+		xs[0].Conn.Write(w1)
+		xs[1].Conn.Write(append(q2(20, "m20"), rel(20)...))
+		vsched.Quiesce()
+	}, false})
 	// (xiii) two Clients of one process (a bridge, say) connect and disconnect at the same time:
 	// Connect and the end of a client connection write the process-wide provider registry
 	out = append(out, raceScenario{"client: two Clients of one process, Connect || Connect, then Disconnect || Disconnect", func() {
